@@ -217,6 +217,7 @@ func init() {
 		b := &treeBuilder{ids: map[interface{}]int{}, kind: map[int]string{}}
 		b.build(t.Root)
 		var visited []int
+		stray := 0
 		budget := 200000
 		var panicked interface{}
 		func() {
@@ -229,6 +230,9 @@ func init() {
 				id, ok := b.ids[n]
 				if !ok {
 					id = -1
+					stray++
+				} else {
+					_ = n.Type() // what any visitor does with a node
 				}
 				visited = append(visited, id)
 				vc.Visit(n)
@@ -247,6 +251,9 @@ func init() {
 			}
 		}
 		fail := ""
+		if stray > 0 {
+			fail = fmt.Sprintf("the visitor was handed %d value(s) that are not nodes of the tree (a nil node, typically)", stray)
+		}
 		for id := 0; id < b.next; id++ {
 			if b.kind[id] == "ListNode" {
 				if count[id] > 1 && fail == "" {
